@@ -29,6 +29,12 @@ package types
 //@   sets act_pkt = packet
 //@   modifies bank, events, act_ctrl, act_pkt, packet.TransferAttributes.destinationCoin
 //@   ensures[C06] true      // (implementations are checked against the frame above)
+//   C01: an action that changes the denomination leaves nothing of the old one on the orbiter account;
+//   no action makes the orbiter account gain in a denomination other than the one it outputs.
+//@   requires[C01] bankNonneg(bank)
+//@   ensures[C01] err == nil ==> bankNonneg(bank) && packet.TransferAttributes != nil
+//@   ensures[C01] err == nil && packet.TransferAttributes.destinationCoin.Denom != old(packet.TransferAttributes.destinationCoin.Denom) ==> bal(bank, orb(), old(packet.TransferAttributes.destinationCoin.Denom)) == 0
+//@   ensures[C01] err == nil ==> orbNoGainExcept(packet.TransferAttributes.destinationCoin.Denom)
 
 //@ func (self ForwardingController) HandlePacket(ctx, packet) (err)
 //@   requires[base] packet != nil && packet.Forwarding != nil && packet.TransferAttributes != nil && taOK(packet.TransferAttributes)
@@ -37,6 +43,12 @@ package types
 //@   sets fwd_pkt = packet
 //@   modifies bank, events, fwd_ctrl, fwd_pkt, out_n, out_kind, out_cctp, out_cctpc, out_hyp, out_send
 //@   ensures[C06] true
+//   C01: a successful forwarding takes exactly the running amount of the running denomination out of
+//   the orbiter account and lets it gain nothing else.
+//@   requires[C01] bankNonneg(bank)
+//@   ensures[C01] err == nil ==> bankNonneg(bank)
+//@   ensures[C01] err == nil ==> bal(bank, orb(), packet.TransferAttributes.destinationCoin.Denom) == bal(old(bank), orb(), packet.TransferAttributes.destinationCoin.Denom) - val(packet.TransferAttributes.destinationCoin.Amount)
+//@   ensures[C01] err == nil ==> orbNoGainExcept(packet.TransferAttributes.destinationCoin.Denom)
 
 // ---------------------------------------------------------------------------------------------
 // The handlers behind the dispatcher (C06: order, shared attributes, running coin)
@@ -50,6 +62,10 @@ package types
 //@   sets-post disp_exit = packet.TransferAttributes.destinationCoin
 //@   modifies bank, events, actcalls, act_ctrl, act_pkt, disp_act_log, disp_act_ta, disp_exit, packet.TransferAttributes.destinationCoin
 //@   ensures[C06] true
+//@   requires[C01] bankNonneg(bank)
+//@   ensures[C01] err == nil ==> bankNonneg(bank) && packet.TransferAttributes != nil
+//@   ensures[C01] err == nil && packet.TransferAttributes.destinationCoin.Denom != old(packet.TransferAttributes.destinationCoin.Denom) ==> bal(bank, orb(), old(packet.TransferAttributes.destinationCoin.Denom)) == 0
+//@   ensures[C01] err == nil ==> orbNoGainExcept(packet.TransferAttributes.destinationCoin.Denom)
 
 //@ func (self PacketHandler[*types.ForwardingPacket]) HandlePacket(ctx, packet) (err)
 //@   requires[base] packet != nil && packet.Forwarding != nil && packet.TransferAttributes != nil && taOK(packet.TransferAttributes)
@@ -59,6 +75,13 @@ package types
 //@   sets disp_fwd_coin = packet.TransferAttributes.destinationCoin
 //@   modifies bank, events, fwdcalls, fwd_ctrl, fwd_pkt, disp_fwd_ta, disp_fwd_fw, disp_fwd_coin, out_n, out_kind, out_cctp, out_cctpc, out_hyp, out_send
 //@   ensures[C06] true
+//   C01 (for the handler that is injected, the forwarder: it checks that the orbiter holds exactly the
+//   running amount before it lets a controller take that amount out).
+//@   implementers forwarder.Forwarder
+//@   requires[C01] bankNonneg(bank)
+//@   ensures[C01] err == nil ==> bankNonneg(bank)
+//@   ensures[C01] err == nil ==> bal(bank, orb(), packet.TransferAttributes.destinationCoin.Denom) == 0
+//@   ensures[C01] err == nil ==> orbNoGainExcept(packet.TransferAttributes.destinationCoin.Denom)
 
 // ---------------------------------------------------------------------------------------------
 // The payload adapter behind the IBC middleware (interface-level contracts, implemented by the
@@ -101,6 +124,8 @@ package types
 //@   modifies bank
 //@   counts hook_n
 //@   sets-post hook_failed = err != nil
+//@   requires[C01] bankNonneg(bank)
+//@   ensures[C01] err == nil ==> bankNonneg(bank)
 //@   ensures[C18] len(packet.Payload.Forwarding.PassthroughPayload) > adapterLimit(self) ==> err != nil
 //@   ensures[C18] len(packet.Payload.Forwarding.PassthroughPayload) <= adapterLimit(self) && bal(old(bank), core.ModuleAddress, opDenom(packet)) == 0 ==> err == nil
 //@   ensures[C01,C02,C11] err == nil ==> bank == moveIf(bal(old(bank), core.ModuleAddress, opDenom(packet)) > 0, old(bank), core.ModuleAddress, dustAddr(), opDenom(packet), bal(old(bank), core.ModuleAddress, opDenom(packet)))
@@ -113,6 +138,7 @@ package types
 //@ func (self PayloadAdapter) ProcessPayload(ctx, packet) (err)
 //@   requires[base] packet != nil && packet.TransferAttributes != nil && taOK(packet.TransferAttributes) && packet.Payload != nil && payloadOK(packet.Payload)
 //@   modifies ghosts, packet.TransferAttributes.destinationCoin
+//@   requires[C01] bankNonneg(bank)
 //@   ensures[C01] err == nil ==> bal(bank, core.ModuleAddress, old(opDenom(packet))) == 0
 //@   ensures[C01] err == nil ==> forall d string :: d != old(opDenom(packet)) ==> bal(bank, core.ModuleAddress, d) <= bal(old(bank), core.ModuleAddress, d)
 //@   ensures[base] wrapped_n == old(wrapped_n) && wrapped_ret == old(wrapped_ret) && hook_n == old(hook_n) && hook_failed == old(hook_failed)
@@ -130,6 +156,7 @@ package types
 //@ func (self PayloadDispatcher) DispatchPayload(ctx, transferAttr, payload) (err)
 //@   requires[base] transferAttr != nil && taOK(transferAttr)
 //@   modifies ghosts, transferAttr.destinationCoin
+//@   requires[C01] bankNonneg(bank)
 //@   ensures[C01] err == nil ==> bal(bank, core.ModuleAddress, old(transferAttr.destinationCoin.Denom)) == 0
 //@   ensures[C01] err == nil ==> forall d string :: d != old(transferAttr.destinationCoin.Denom) ==> bal(bank, core.ModuleAddress, d) <= bal(old(bank), core.ModuleAddress, d)
 //@   ensures[base] wrapped_n == old(wrapped_n) && wrapped_ret == old(wrapped_ret) && hook_n == old(hook_n) && hook_failed == old(hook_failed)
